@@ -140,12 +140,16 @@ def r5_module_import(ctx):
         ctx.check(bool(barms) and not hir.is_catch_all(barms[0][1]["pat"]), R, "%s|Binary" % key, "binaries have an arm (constant or heap bytes -> constant)", "no arm for Value::Binary")
 
 
-def run(ctx):
+def r1_remap_completeness(ctx):
     c07.r2_index_fields(ctx, "R-C10-1")
+
+
+def r2_remap_construction(ctx):
     c07.r5_remap_order_and_freshness(ctx, "R-C10-2")
-    r3_serde_symmetry(ctx)
-    r4_capture_injection(ctx)
-    r5_module_import(ctx)
+
+
+def run(ctx):
+    ctx.run_rules([r1_remap_completeness, r2_remap_construction, r3_serde_symmetry, r4_capture_injection, r5_module_import])
     ctx.note("R-C10-1 also decides mark ⊇ sweep: every sweep lookup that unwrap()s is for an id class the mark phase records for the same variant")
     ctx.note("NOT decided: that `%m.f` behaves like in-place evaluation, or equality of results across the four execution routes (needs evaluation)")
     return (
